@@ -501,7 +501,12 @@ func (c *wsConn) handleResponse(frame frame) {
 		Error:   frame.Error,
 	}
 	c.inflightLk.Lock()
-	delete(c.inflight, frame.ID)
+	// a retried request may have registered the same id again while this (by now
+	// stale) response was being delivered; only drop the entry it was looked up for
+	cur, still := c.inflight[frame.ID]
+	if still && cur.ready == req.ready {
+		delete(c.inflight, frame.ID)
+	}
 	vhook("resp.delete", c, frame.ID)
 	c.inflightLk.Unlock()
 }
